@@ -31,8 +31,8 @@ ASSUMPTIONS = ["float64; |Z - 1| <= 1e-9 (1e-7 after optimiser steps in log spac
 
 
 @st.composite
-def _case(draw, tier):
-    fam = draw(st.sampled_from(["rg", "rg", "rg", "image", "tabular", "hmm", "ff", "cp", "tucker"]))
+def _case(draw, tier, families=("rg", "rg", "rg", "image", "tabular", "hmm", "ff", "cp", "tucker")):
+    fam = draw(st.sampled_from(list(families)))
     c = {"family": fam, "fold": draw(st.booleans()), "optimize": draw(st.booleans()),
          "semiring": draw(st.sampled_from(["sum-product", "lse-sum"])),
          "vseed": draw(st.integers(0, 2**20)), "profile": draw(st.sampled_from(["normal", "wide", "init"])),
@@ -71,8 +71,8 @@ def _case(draw, tier):
     return c
 
 
-def strategy(tier):
-    return _case(tier)
+def strategy(tier, families=None):
+    return _case(tier) if families is None else _case(tier, families)
 
 
 def build_template(c):
